@@ -1,6 +1,6 @@
 (* C20 — glue evaluated by generated case files: verdict = (model = impl?) + 2*(checker rejects impl) *)
 From EsVerif.Common Require Import Base.
-From EsVerif.C20 Require Import Model Spec.
+From EsVerif.C20 Require Import Model Model2 Spec.
 
 Definition zz_eqb := list_eqb zpair_eqb.
 
@@ -54,3 +54,124 @@ Definition isplit_sweep (nmax cmax : nat) : bool :=
   forallb (fun num => forallb (fun c =>
      match isplit num c with Ok l => isplit_check num c l | Err _ => false end)
      (zseq 1 cmax)) (zseq 0 nmax).
+
+(* ================================================================== second layer (Model2.v) *)
+(* format_interval: the harness parses the text into its integer fields *)
+Definition v_format_interval (t : Z) (out : list Z) : Z :=
+  verdict (match format_interval t with Ok (_, fs) => zlist_eqb fs out | Err _ => false end) true.
+
+(* meters written by the full bar: (count shown, total shown or None) per print_status call *)
+Definition popt_eqb := option_eqb Z.eqb.
+Definition print_eqb (p q : Z * option Z) : bool := (fst p =? fst q) && popt_eqb (snd p) (snd q).
+Fixpoint increasing_b (a : Z) (l : list (Z * option Z)) : bool :=
+  match l with [] => true | p :: t => (a <? fst p) && increasing_b (fst p) t end.
+Definition prints_check (n : Z) (leave : bool) (tot : option Z) (ps : list (Z * option Z)) : bool :=
+  match ps with
+  | [] => false
+  | p0 :: rest =>
+      print_eqb p0 (0, meter_total 0 tot) && increasing_b 0 rest
+      && forallb (fun p => popt_eqb (snd p) (meter_total (fst p) tot) && (fst p <=? n)) ps
+      && (if leave then fst (last ps (0, None)) =? n else true)
+  end.
+
+Definition v_meter_total (n : Z) (total shown : option Z) : Z :=
+  verdict (popt_eqb (meter_total n total) shown) true.
+
+(* full bar with its meters.  det = the update schedule is deterministic (mininterval = 0): the printed
+   sequence must be the model's; otherwise it must satisfy the schedule-independent facts.  The meters are
+   compared only when the iteration ended normally. *)
+Definition v_pbar_prints (c : pcfg) (miniters : Z) (leave det : bool) (items : list Z)
+           (out : list (Z * Z) * option err) (ps : list (Z * option Z)) : Z :=
+  let n := Z.of_nat (length items) in
+  verdict (pout_eqb (pbar c items) out
+           && (if simple c then true
+               else if det then list_eqb print_eqb (full_prints miniters leave c items) ps
+               else prints_check n leave (eff_total c n) ps))
+          (if pbar_required c items then pbar_check items out else true).
+
+Definition v_pbar_nested (co ci : pcfg) (items : list Z) (out : list (Z * Z) * option err) : Z :=
+  verdict (pout_eqb (pbar_nested co ci items) out)
+          (if pbar_required ci items && pbar_required (as_generator co) items then pbar_check items out else true).
+
+(* prange: real_items = list(range(args...)) computed by python, None when range() raised *)
+Definition v_prange (c : pcfg) (args : list Z) (real_items : option (list Z)) (out : list (Z * Z) * option err) : Z :=
+  verdict (pout_eqb (prange c args) out
+           && match range_args args, real_items with
+              | Ok m, Some r => zlist_eqb m r
+              | Err _, None => true
+              | _, _ => false
+              end)
+          (match real_items with
+           | Some items => if pbar_required (as_sized c) items then pbar_check items out else true
+           | None => true
+           end).
+
+(* pmap with a task that raises: x |-> ValueError if x mod p = r, KeyError if x mod q = s, else a*x*x + b *)
+Definition task_exn (a b p r q s : Z) (x : Z) : result Z :=
+  if x mod p =? r then Err EValue else if x mod q =? s then Err EKey else Ok (a * x * x + b).
+Definition v_pmap_exn (a b p r q s : Z) (items : list Z) (chunksize : Z)
+           (out_end : option err) (out_res : list Z) (yielded pulled : Z) : Z :=
+  let f := task_exn a b p r q s in
+  let n := length (chunks_of (length items) (Z.to_nat chunksize) items) in
+  verdict (match pmap_exn f items chunksize (zseq 0 n) with
+           | Some (ys, e) =>
+               option_eqb err_eqb e out_end
+               && (match e with None => zlist_eqb ys out_res | Some _ => true end)
+               && (if yielded <? 0 then true else Z.of_nat (length ys) =? yielded)
+               && (pulled =? Z.of_nat (length items))
+           | None => false
+           end)
+          (match seq_run f items with
+           | (vs, None) => match out_end with None => zlist_eqb out_res vs | Some _ => false end
+           | (_, Some _) => match out_end with None => false | Some _ => true end
+           end).
+
+(* ------------------------------------------------------------ exhaustive small scopes (thorough tier) *)
+Fixpoint all_lists (k : nat) : list (list Z) :=
+  match k with O => [[]] | S k' => flat_map (fun l => [0 :: l; 1 :: l; 2 :: l]) (all_lists k') end.
+Definition with_values (l : list Z) : list (Z * Z) := combine l (zseq 100 (length l)).
+Definition sort_sweep (kmax : nat) : bool :=
+  forallb (fun k => forallb (fun l =>
+     match quicksort l with Some o => sort_check l o | None => false end
+     && match quicksort_keyvalue (with_values l) with Some o => sortkv_check (with_values l) o | None => false end)
+     (all_lists k)) (seq 0 (S kmax)).
+
+Definition splitarray_sweep (nmax pmax : nat) : bool :=
+  forallb (fun n => forallb (fun nper =>
+     let var := zseq 7 n in
+     match splitarray nper var with Ok cs => splitarray_check nper var cs | Err _ => false end)
+     (zseq 1 pmax)) (seq 0 (S nmax)).
+
+Fixpoint insert_all (x : Z) (l : list Z) : list (list Z) :=
+  match l with [] => [[x]] | y :: t => (x :: l) :: map (cons y) (insert_all x t) end.
+Fixpoint perms (l : list Z) : list (list Z) :=
+  match l with [] => [[]] | x :: t => flat_map (insert_all x) (perms t) end.
+(* every permutation of the chunk numbers, and every permutation with one completion repeated *)
+Definition pmap_sweep (nmax : nat) : bool :=
+  let f := fun x => 3 * x * x - 1 in
+  let g := task_exn 3 (-1) 4 3 5 1 in
+  forallb (fun n => forallb (fun cs =>
+     let items := zseq (-2) n in
+     let nch := length (chunks_of n (Z.to_nat cs) items) in
+     forallb (fun sched =>
+        match pmap f items cs sched with Some o => zlist_eqb o (map f items) | None => false end
+        && match pmap f items cs (sched ++ firstn 1 sched) with Some o => zlist_eqb o (map f items) | None => false end
+        && match pmap_exn g items cs sched, ref_chunks g (chunks_of n (Z.to_nat cs) items), seq_run g items with
+           | Some (ys, e), (ys', e'), (vs, e'') =>
+               zlist_eqb ys ys' && option_eqb err_eqb e e' && option_eqb err_eqb e e''
+               && zlist_eqb ys (firstn (length ys) vs)
+           | None, _, _ => false
+           end)
+        (perms (zseq 0 nch)))
+     (zseq 1 (S n))) (seq 0 (S nmax)).
+
+Definition pbar_sweep (nmax : nat) : bool :=
+  forallb (fun n =>
+     let items := zseq 10 n in
+     forallb (fun s => forallb (fun h => forallb (fun t =>
+        let c := {| simple := s; has_len := h; total := t |} in
+        (if pbar_required c items then pbar_check items (pbar c items) else true)
+        && pout_eqb (run_skel (if s then sbar_skel else full_skel) c items) (pbar c items)
+        && pout_eqb (pbar_on c items None) (pbar c items))
+        (None :: map Some (zseq 0 (n + 3)))) [true; false]) [true; false])
+     (seq 0 (S nmax)).
